@@ -210,6 +210,11 @@ def run(facts, tier):
     c08.r08_3(facts, res)
     c08.r08_4(facts, res)
     c07.fresh_key_rule(facts, res, "R07-5")
+    # "for every document" includes documents edited through the DOM: positions, unions and order rest on the order keys
+    c14.c14_4(facts, res, "C05-order")
+    c14.c14_8(facts, res, "C05-order-v")
+    import staleidx
+    staleidx.rule(facts, res, "C05-order-i", lambda f: f["crate"] in ("xml_info", "xml_dom"), floor=7)
     # operators and the function library are part of "the value XPath 1.0 prescribes": same rules as C09
     from props import c09
     table = c09.r09_1(facts, res)
